@@ -1,10 +1,32 @@
 pub mod wire;
+pub mod client;
+pub mod idl;
+pub mod fmt;
+pub mod gen;
+pub mod serde;
+pub mod pool;
+pub mod listen;
+pub mod addr;
+pub mod proxy;
+pub mod cert;
+pub mod cli;
 
 use crate::Suite;
 
 pub fn by_name(name: &str) -> Option<Box<dyn Suite>> {
     match name {
         "wire" => Some(Box::new(wire::WireSuite)),
+        "client" => Some(Box::new(client::ClientSuite)),
+        "idl" => Some(Box::new(idl::IdlSuite)),
+        "fmt" => Some(Box::new(fmt::FmtSuite)),
+        "gen" => Some(Box::new(gen::GenSuite)),
+        "serde" => Some(Box::new(serde::SerdeSuite)),
+        "pool" => Some(Box::new(pool::PoolSuite)),
+        "listen" => Some(Box::new(listen::ListenSuite)),
+        "addr" => Some(Box::new(addr::AddrSuite)),
+        "proxy" => Some(Box::new(proxy::ProxySuite)),
+        "cert" => Some(Box::new(cert::CertSuite)),
+        "cli" => Some(Box::new(cli::CliSuite)),
         _ => None,
     }
 }
